@@ -45,5 +45,6 @@ def run(ctx):
     from . import alias_rules as A_
     A_.r05_17_dump_cycle_walk(ctx, 'R06.15')
     D.r06_16_replaced_node_filed(ctx)
+    D.r06_17_hook_sees_shared_children(ctx)
     from . import memo_rules as M
     M.memo_sound(ctx, 'R06.M')
